@@ -95,4 +95,64 @@ Proof.
   rewrite Hp at 1. rewrite zs_app, <- (zs_length (autotag_go depth path)), slice_app_prefix. reflexivity.
 Qed.
 
+(* Beyond the model (which takes depth : nat): for EVERY int depth, also a negative one, and every
+   path the scan terminates without panic and returns a prefix of the path.  Proved with the loop
+   rule of Lib/Imp.v: invariant 0 <= ind <= len(path), variant len(path) - ind. *)
+Lemma index_nth (P : list Z) (k : nat) :
+  (k < List.length P)%nat -> index P (Z.of_nat k) = Ok (VInt (nth k P 0)).
+Proof.
+  intros Hk. unfold index.
+  replace ((0 <=? Z.of_nat k) && (Z.of_nat k <? Z.of_nat (List.length P))) with true.
+  - rewrite Nat2Z.id. reflexivity.
+  - symmetry. apply andb_true_iff. split; [apply Z.leb_le|apply Z.ltb_lt]; lia.
+Qed.
+
+Lemma autotag_safe (depth : Z) (P : list Z) :
+  exists fuel k, (k <= List.length P)%nat /\
+    run gen_prog_httpgun no_ext fuel "autotag" [VInt depth; VArr P] = Ret [VArr (firstn k P)].
+Proof.
+  set (I := fun en : env => exists d k, en = autotag_env d P (Z.of_nat k) /\ (k <= List.length P)%nat).
+  set (m := fun en : env => match lookup "ind" en with
+                            | Some (VInt i) => Z.to_nat (Z.of_nat (List.length P) - i)
+                            | _ => O end).
+  destruct (for_rule gen_prog_httpgun no_ext
+              (EBin OLt (EVar "ind") (ELen (EVar "path")))
+              (SIf (EBin OEq (EIdx (EVar "path") (EVar "ind")) (ELit 47))
+                   (SSeq (SIf (EBin OEq (EVar "depth") (ELit 0)) SBreak SSkip)
+                         (SAssign ["depth"] [EBin OSub (EVar "depth") (ELit 1)]))
+                   SSkip)
+              (SAssign ["ind"] [EBin OAdd (EVar "ind") (ELit 1)])
+              I I m) with (en := autotag_env depth P 0) as (fuel & en' & E & (d' & k & -> & Hk)).
+  - intros en (d & k & -> & Hk). unfold autotag_env.
+    destruct (Nat.eq_dec k (List.length P)) as [->|Hne].
+    + left. split; [|exists d, (List.length P); split; [reflexivity|lia]].
+      imp_eval. rewrite Z.ltb_irrefl. reflexivity.
+    + right. exists 1. split; [|split; [discriminate|]].
+      * imp_eval. replace (Z.of_nat k <? Z.of_nat (List.length P)) with true; [reflexivity|].
+        symmetry. apply Z.ltb_lt. lia.
+      * exists 1%nat. pose proof (index_nth P k ltac:(lia)) as Hidx.
+        destruct (nth k P 0 =? 47) eqn:Hc; [destruct (d =? 0) eqn:Hd|].
+        -- left. eexists. split.
+           ++ imp_cbn. rewrite Hidx. imp_cbn. imp_rw. rewrite Hc, Hd. reflexivity.
+           ++ exists d, k. split; [reflexivity|lia].
+        -- right. eexists. eexists. split; [left|split; [|split]].
+           ++ imp_cbn. rewrite Hidx. imp_cbn. imp_rw. rewrite Hc, Hd. cbn [negb]. reflexivity.
+           ++ imp_cbn. reflexivity.
+           ++ exists (d - 1), (S k). split; [|lia]. unfold autotag_env. repeat f_equal. lia.
+           ++ unfold m. imp_cbn. lia.
+        -- right. eexists. eexists. split; [left|split; [|split]].
+           ++ imp_cbn. rewrite Hidx. imp_cbn. imp_rw. rewrite Hc. cbn [negb]. reflexivity.
+           ++ imp_cbn. reflexivity.
+           ++ exists d, (S k). split; [|lia]. unfold autotag_env. repeat f_equal. lia.
+           ++ unfold m. imp_cbn. lia.
+  - exists depth, O. split; [reflexivity|lia].
+  - exists fuel, k. split; [exact Hk|].
+    unfold run. rewrite find_autotag. unfold gen_autotag. cbn [f_body f_params].
+    imp_eval. imp_go. unfold autotag_env in E. rewrite E. imp_go.
+    unfold slice. replace ((0 <=? 0) && (0 <=? Z.of_nat k) && (Z.of_nat k <=? Z.of_nat (List.length P))) with true.
+    + rewrite Z.sub_0_r, Nat2Z.id. reflexivity.
+    + symmetry. rewrite !andb_true_iff. repeat split; apply Z.leb_le; lia.
+Qed.
+
 Print Assumptions bridge_autotag.
+Print Assumptions autotag_safe.
